@@ -536,6 +536,25 @@ func (c *c11FileCtx) isEnumTy(t *c11GTy) bool {
 	return s != nil
 }
 
+// hidesQualified: t mentions a LOCAL typedef whose expansion mentions an include-qualified type.
+// excluded (in service method signatures and scope operations): go-service-import-through-typedef —
+// the imports of a service/scope file are computed from the type names as written.
+func (c *c11FileCtx) hidesQualified(t *c11GTy, viaTypedef bool, depth int) bool {
+	if depth > 200 {
+		return false
+	}
+	if t.isCont() {
+		return (t.k != nil && c.hidesQualified(t.k, viaTypedef, depth+1)) || c.hidesQualified(t.v, viaTypedef, depth+1)
+	}
+	if strings.Contains(t.name, ".") {
+		return viaTypedef
+	}
+	if s := c.syms[t.name]; s != nil && s.kind == c11SymTypedef {
+		return c.hidesQualified(s.td.t, true, depth+1)
+	}
+	return false
+}
+
 var c11BaseNames = []string{"bool", "byte", "i16", "i32", "i64", "double", "string", "binary"}
 
 func c11IsBaseName(n string) bool {
@@ -674,6 +693,12 @@ func (g *c11ProgGen) fields(c *c11FileCtx, n int, kind string, defaults bool) []
 			id += 1000 + r.Intn(28000) // field ids are i16
 		}
 		f := &c11GField{id: id, name: fn.fresh(), t: g.anyTy(c, 2)}
+		for tries := 0; kind == "args" && c.hidesQualified(f.t, false, 0); tries++ {
+			f.t = g.anyTy(c, 2)
+			if tries > 20 {
+				f.t = c11TBase("i32")
+			}
+		}
 		if kind != "union" && kind != "args" && kind != "throws" {
 			f.mod = []string{"", "", "required", "optional"}[r.Intn(4)]
 		} else if kind == "args" && r.Chance(15) {
@@ -1074,6 +1099,9 @@ func (g *c11ProgGen) genFile(idx int, name string, incs []*c11FileCtx) *c11FileC
 			} else {
 				if r.Chance(70) {
 					m.ret = g.anyTy(c, 2)
+					if c.hidesQualified(m.ret, false, 0) {
+						m.ret = c11TBase("string")
+					}
 				}
 				if len(excs) > 0 && r.Chance(40) {
 					ne := 1 + r.Intn(2)
@@ -1126,6 +1154,9 @@ func (g *c11ProgGen) genFile(idx int, name string, incs []*c11FileCtx) *c11FileC
 			}
 			if t == nil {
 				t = g.anyTy(c, 1)
+			}
+			if c.hidesQualified(t, false, 0) {
+				t = c11TBase("i64")
 			}
 			s.ops = append(s.ops, &c11GOp{name: on.fresh(), t: t})
 		}
